@@ -33,7 +33,7 @@ PROPERTIES = {
         'does_not_decide': 'the estimates themselves (C14 numerics), the deque order (C12)',
     },
     'C12': {
-        'rules': [adm.rule_must_recency, adm.rule_cmp_admit, adm.rule_cmp_evict, adm.rule_flow_admit_sums, flow.rule_flow_sync],
+        'rules': [adm.rule_must_recency, fx.rule_pair_readop_once, adm.rule_cmp_admit, adm.rule_cmp_evict, adm.rule_flow_admit_sums, flow.rule_flow_sync],
         'explanation': 'Recency bookkeeping is invoked on every use (get hit, update, admission push-back); victim selection starts at the '
                        'front of probation and advances by next only; the scan and the eviction loops stop as early as allowed '
                        '(victims.weight < candidate.weight, evicted >= weights_to_evict) and remove what peek_front returned.',
@@ -41,7 +41,7 @@ PROPERTIES = {
         'does_not_decide': 'that Deque really implements the order (its pointer algebra); order among skipped / stale nodes in sync',
     },
     'C04': {
-        'rules': [adm.rule_admission_outcomes, adm.rule_cmp_evict, cfg.rule_store_capacity, conc.rule_const_logsizes, conc.rule_loop_retry, flow.rule_flow_unsync, flow.rule_flow_sync, stale.rule_must_drain],
+        'rules': [adm.rule_admission_outcomes, adm.rule_cmp_evict, cfg.rule_store_capacity, cfg.rule_weigh_exact, conc.rule_const_logsizes, conc.rule_loop_retry, flow.rule_flow_unsync, flow.rule_flow_sync, stale.rule_must_drain],
         'explanation': 'Structural half of the bound: a candidate that does not fit is admitted only with its victims removed or is itself '
                        'removed; oversize candidates are undone; over-capacity is evicted at every unsync operation and every maintenance '
                        'run with the exact exit test; counters are adjusted on every path (FLOW); the queue of un-applied writes is bounded '
@@ -61,7 +61,7 @@ PROPERTIES = {
         'does_not_decide': 'behavioural equivalence of configurations as a whole',
     },
     'C11': {
-        'rules': [must.rule_unlink_both, safe.rule_auth_node_free, stale.rule_admit_live, stale.rule_stale_removal, stale.rule_must_drain, must.rule_must_invalidate, must.rule_must_expire],
+        'rules': [must.rule_unlink_both, safe.rule_auth_node_free, stale.rule_admit_live, stale.rule_stale_removal, stale.rule_must_drain, must.rule_must_invalidate, must.rule_must_expire, must.rule_scan_stops_with_cause],
         'explanation': 'Exactly-once is Rust ownership everywhere except the raw-pointer list, so the check is about that boundary: every '
                        'removal from the map unlinks and frees both deque nodes of the entry, maintenance never creates a node for an entry '
                        'that already left the map, and never removes by key alone.',
@@ -69,7 +69,7 @@ PROPERTIES = {
         'does_not_decide': 'live-object counts at quiescent points, release timing relative to the clock',
     },
     'C10': {
-        'rules': [flow.rule_flow_unsync, flow.rule_flow_admit_sums_unsync, flow.rule_flow_sync, stale.rule_admit_live, stale.rule_stale_removal, cfg.rule_store_weigher],
+        'rules': [flow.rule_flow_unsync, flow.rule_flow_admit_sums_unsync, flow.rule_flow_sync, stale.rule_admit_live, stale.rule_stale_removal, cfg.rule_store_weigher, cfg.rule_weigh_exact, must.rule_scan_stops_with_cause],
         'explanation': 'Per-path traces of every function that adds / removes / replaces a map entry: the final value written to each '
                        'counter is decomposed into a signed sum and must contain the removed entry\'s stored weight with sign - (and 1 with -), '
                        'the admitted candidate\'s weight with + (and 1), -old +new for updates, 0 after clear; accumulators are checked '
